@@ -3,6 +3,7 @@ package props
 import (
 	"fmt"
 	"go/ast"
+	"go/constant"
 	"go/parser"
 	"go/token"
 	"go/types"
@@ -558,4 +559,21 @@ func backEdgesGuarded(fn *ssa.Function, hdr *ssa.BasicBlock, guards []engine.Gua
 		}
 	}
 	return found
+}
+
+// constInt resolves an integer constant of a repo package by name (-1 if absent).
+func constInt(p *engine.Prog, pkgShort, name string) int64 {
+	pk := p.ByPath[engine.RepoMod+"/"+pkgShort]
+	if pk == nil {
+		return -1
+	}
+	c, ok := pk.Types.Scope().Lookup(name).(*types.Const)
+	if !ok {
+		return -1
+	}
+	v, ok := constant.Int64Val(c.Val())
+	if !ok {
+		return -1
+	}
+	return v
 }
